@@ -38,6 +38,9 @@
 (*                    initialize-download for such a transfer either       *)
 (*   OfferSkipsOccupied  ... nor while the transfer-task slot still holds  *)
 (*                    a live task (a repeated offer with a new ticket)     *)
+(*   StartRechecks    a cycle that waits between selecting transfers and   *)
+(*                    starting their tasks looks at them again (the pinned *)
+(*                    code never waits there: trivially TRUE)              *)
 (***************************************************************************)
 EXTENDS Naturals, Sequences, FiniteSets, TLC
 
@@ -52,7 +55,8 @@ CONSTANTS
   MaxRequeue,        \* bound on user re-queues
   MaxOffers,         \* bound on frames from the peer (offers, queue-failed, re-queue, upload-failed, place replies) and
                      \* losses of the peer connection
-  SkipOccupied, CallbackOwnOnly, RemoveCancels, CycleSkipsLocked, OfferSkipsLocked, OfferSkipsOccupied
+  MaxSplit,          \* bound on cycles that wait between selecting and starting
+  SkipOccupied, CallbackOwnOnly, RemoveCancels, CycleSkipsLocked, OfferSkipsLocked, OfferSkipsOccupied, StartRechecks
 
 TaskIds == 1..MaxTasks
 
@@ -71,7 +75,7 @@ VARIABLES
   acted,    \* transfers on whose behalf THIS step wrote a protocol message or opened a connection; plus markers
             \* Told(t, field): in this step the PEER told us the value of a field that is its to tell (remQ, piq)
   pconn,    \* an established peer (P) connection to the peer exists and is re-used by send_peer_messages
-  cnt       \* budget counters
+  cnt       \* budget counters; cnt.sel: what the management job has selected and not yet started (CycleSelect)
 
 vars == <<kind0, x, present, rqSlot, ttSlot, task, nT, cbq, op, quiet, acted, pconn, cnt>>
 
@@ -114,7 +118,7 @@ Init ==
   /\ quiet = [t \in T |-> 0]
   /\ acted = {}
   /\ pconn = FALSE
-  /\ cnt = [cyc |-> 0, ops |-> 0, env |-> 0, req |-> 0, off |-> 0]
+  /\ cnt = [cyc |-> 0, ops |-> 0, env |-> 0, req |-> 0, off |-> 0, split |-> 0, sel |-> {}]
 
 ----------------------------------------------------------------------------
 \* transfer/state.py: what a state method does to the fields (a refused call changes nothing)
@@ -153,7 +157,7 @@ Quiescent == cbq = <<>> /\ ~OpAwaiting /\ ~CancelPending
 End(tk, k) == [tk EXCEPT ![k].pc = "ended"]
 
 ----------------------------------------------------------------------------
-\* manager.py:542-567  manage_transfers (one synchronous call)
+\* manager.py:542-567  manage_transfers
 
 Locked(t) == op[t].pc \in {"await", "rmfile"} /\ op[t].ok      \* the state lock of t is held by abort/pause
 
@@ -176,33 +180,59 @@ StartsUL(t) ==
   /\ SkipOccupied => SlotFree(ttSlot[t])
   /\ CycleSkipsLocked => ~Locked(t)
 
-\* number of starters with a smaller position in the creation order (downloads first, then the upload)
-Before(t) == Cardinality({u \in T : StartsRQ(u) /\ (u < t \/ StartsUL(t))})
-NewId(t) == nT + Before(t) + 1
 Starters == {t \in T : StartsRQ(t) \/ StartsUL(t)}
 
-\* The new task runs to its first suspending await in the same loop iteration burst:
+\* Tasks are created for the transfers in S: downloads (queue-remotely) in list order first, then the upload
+\* (initialize-upload).  Position of t in that order:
+Before(S, t) == Cardinality({u \in S : Dir(u) = "down" /\ (u < t \/ Dir(t) = "up")})
+NewId(S, t) == nT + Before(S, t) + 1
+
+\* Each new task runs to its first suspending await in the same loop iteration burst:
 \*  queue-remotely: send_peer_messages -> get_peer_connection: re-use the P connection and write PeerTransferQueue
 \*                  (remotely_queued := True, task ends), else GetPeerAddress + direct connect attempt
-\*  initialize-upload: state.initialize(), then PeerTransferRequest on the P connection or connect first
-Cycle ==
-  /\ cnt.cyc < MaxCycles
-  /\ nT + Cardinality(Starters) <= MaxTasks
-  /\ cnt' = [cnt EXCEPT !.cyc = @ + 1]
-  /\ nT' = nT + Cardinality(Starters)
+\*  initialize-upload: state.initialize() (refused - and ignored - if the transfer is no longer QUEUED), then
+\*                  PeerTransferRequest on the P connection or connect first
+StartTasks(S) ==
+  /\ nT + Cardinality(S) <= MaxTasks
+  /\ nT' = nT + Cardinality(S)
   /\ task' = [k \in TaskIds |->
-                IF \E t \in Starters : NewId(t) = k
-                  THEN LET t == CHOOSE t \in Starters : NewId(t) = k IN
-                         IF StartsRQ(t)
+                IF \E t \in S : NewId(S, t) = k
+                  THEN LET t == CHOOSE t \in S : NewId(S, t) = k IN
+                         IF Dir(t) = "down"
                            THEN [t |-> t, kind |-> "rq", pc |-> IF pconn THEN "ended" ELSE "direct", canc |-> FALSE]
                            ELSE [t |-> t, kind |-> "init", pc |-> IF pconn THEN "reply" ELSE "direct", canc |-> FALSE]
                   ELSE task[k]]
-  /\ rqSlot' = [t \in T |-> IF StartsRQ(t) THEN NewId(t) ELSE rqSlot[t]]
-  /\ ttSlot' = [t \in T |-> IF StartsUL(t) THEN NewId(t) ELSE ttSlot[t]]
-  /\ x' = [t \in T |-> IF StartsRQ(t) /\ pconn THEN [x[t] EXCEPT !.remQ = TRUE, !.qatt = 0]
-                       ELSE IF StartsUL(t) THEN DoInitialize(x[t]) ELSE x[t]]
-  /\ cbq' = cbq \o Sorted({NewId(t) : t \in {u \in Starters : StartsRQ(u) /\ pconn}})
-  /\ acted' = Starters
+  /\ rqSlot' = [t \in T |-> IF t \in S /\ Dir(t) = "down" THEN NewId(S, t) ELSE rqSlot[t]]
+  /\ ttSlot' = [t \in T |-> IF t \in S /\ Dir(t) = "up" THEN NewId(S, t) ELSE ttSlot[t]]
+  /\ x' = [t \in T |-> IF t \in S /\ Dir(t) = "down" /\ pconn THEN [x[t] EXCEPT !.remQ = TRUE, !.qatt = 0]
+                       ELSE IF t \in S /\ Dir(t) = "up" THEN DoInitialize(x[t]) ELSE x[t]]
+  /\ cbq' = cbq \o Sorted({NewId(S, t) : t \in {u \in S : Dir(u) = "down" /\ pconn}})
+  /\ acted' = S
+
+\* the management job is not between selecting and starting (it is ONE task: cycles do not overlap)
+Idle == cnt.sel = {}
+
+\* a cycle that selects and starts without suspending in between (manage_transfers as one synchronous call)
+Cycle ==
+  /\ Idle /\ cnt.cyc < MaxCycles
+  /\ cnt' = [cnt EXCEPT !.cyc = @ + 1]
+  /\ StartTasks(Starters)
+  /\ UNCHANGED <<kind0, present, op, quiet, pconn>>
+
+\* A cycle may also have to wait between selecting the transfers and starting their tasks (a file-system or other
+\* executor round trip, any await): everything else goes on meanwhile - in particular a user call on a selected
+\* transfer that has nothing to cancel completes at once.  What was selected must then be looked at again
+\* (StartRechecks); a cycle that does not suspend is the special case in which nothing can have changed.
+CycleSelect ==
+  /\ Idle /\ cnt.cyc < MaxCycles /\ cnt.split < MaxSplit /\ Starters # {}
+  /\ cnt' = [cnt EXCEPT !.cyc = @ + 1, !.split = @ + 1, !.sel = Starters]
+  /\ acted' = {}
+  /\ UNCHANGED <<kind0, x, present, rqSlot, ttSlot, task, nT, cbq, op, quiet, pconn>>
+
+CycleStart ==
+  /\ ~Idle
+  /\ cnt' = [cnt EXCEPT !.sel = {}]
+  /\ StartTasks(IF StartRechecks THEN cnt.sel \cap Starters ELSE cnt.sel)
   /\ UNCHANGED <<kind0, present, op, quiet, pconn>>
 
 ----------------------------------------------------------------------------
@@ -528,7 +558,7 @@ Requeue(t) ==
   /\ UNCHANGED <<kind0, present, rqSlot, ttSlot, task, nT, cbq, op, pconn>>
 
 Next ==
-  \/ Cycle
+  \/ Cycle \/ CycleSelect \/ CycleStart
   \/ DoneCallback
   \/ \E k \in TaskIds : CancelDelivered(k)
   \/ \E t \in T, kd \in {"rq", "init"}, i \in 1..2, res \in {"ok", "fail"} : Direct(t, kd, i, res) \/ Indirect(t, kd, i, res)
